@@ -48,6 +48,7 @@ type in struct {
 	N     int64   `json:"n,omitempty"`
 	Plain bool    `json:"plain,omitempty"` // find: pass `true` as 4th argument ...
 	Extra int     `json:"extra,omitempty"` // ... followed by this many nil arguments
+	Nested bool   `json:"nested,omitempty"` // gsub with a function / gmatch: other pattern calls (one of them a caught error) run between the matches
 	Src   string  `json:"origin,omitempty"` // generator stream, for the distribution table
 }
 
@@ -148,6 +149,46 @@ func entryToLV(e tabEntry) lua.LValue {
 	return lua.LFalse
 }
 
+// nestedProbe: pattern-matching calls made while an outer gsub/gmatch is in progress (from the
+// replacement function, between two iterator calls): results fixed by the 5.1 manual, one of the
+// calls raises (and catches) a pattern error.  They must neither be disturbed by the outer call nor
+// disturb it (the outer observation is compared with the model as if they were absent).
+func nestedProbe(L *lua.LState, bad *[]string) {
+	strlib := L.GetGlobal("string")
+	str := func(vs []lua.LValue) string {
+		parts := []string{}
+		for _, v := range vs {
+			parts = append(parts, v.String())
+		}
+		return strings.Join(parts, ",")
+	}
+	expect := func(what, want string, res []lua.LValue, kind string) {
+		got := kind
+		if kind == "ok" {
+			got = str(res)
+		}
+		if got != want {
+			*bad = append(*bad, fmt.Sprintf("nested %s inside a running gsub/gmatch gave %q, expected %q", what, got, want))
+		}
+	}
+	res, kind, _ := pcall(L, L.GetField(strlib, "find"), lua.LString("key = value"), lua.LString("(%w+)%s*=%s*()(%w+)"))
+	expect("find", "1,11,key,7,value", res, kind)
+	res, kind, _ = pcall(L, L.GetField(strlib, "find"), lua.LString("abc"), lua.LString("(b"))
+	expect("find with an unfinished capture", "err", res, kind)
+	res, kind, _ = pcall(L, L.GetField(strlib, "gsub"), lua.LString("abc abc"), lua.LString("(b)(c)"), lua.LString("%2%1"))
+	expect("gsub", "acb acb,2", res, kind)
+	res, kind, _ = pcall(L, L.GetField(strlib, "gmatch"), lua.LString("x1 y2"), lua.LString("%a(%d)"))
+	if kind == "ok" && len(res) == 1 {
+		f := res[0]
+		r1, k1, _ := pcall(L, f)
+		r2, k2, _ := pcall(L, f)
+		r3, k3, _ := pcall(L, f)
+		expect("gmatch", "ok,1;ok,2;ok,nil", nil, k1+","+str(r1)+";"+k2+","+str(r2)+";"+k3+","+str(r3))
+	} else {
+		expect("gmatch", "one iterator", nil, kind)
+	}
+}
+
 func runReal(c in) (o out) {
 	defer func() {
 		if v := recover(); v != nil {
@@ -225,6 +266,9 @@ func runReal(c in) (o out) {
 				break
 			}
 			o.Tuples = append(o.Tuples, conv(r))
+			if c.Nested {
+				nestedProbe(L, &bad)
+			}
 			if k > len(s)+3 {
 				bad = append(bad, "gmatch iterator yields more matches than the subject has positions")
 				break
@@ -296,6 +340,9 @@ func runReal(c in) (o out) {
 				calls = append(calls, a)
 				k := ncall
 				ncall++
+				if c.Nested {
+					nestedProbe(L, &bad)
+				}
 				if k < len(rets) {
 					L.Push(entryToLV(rets[k]))
 				} else {
